@@ -172,10 +172,10 @@ theorem iP_step (f : Sem) (j : Job) (cl : Cluster) (s s' : Sys) (st : Step) (wf 
       obtain ⟨f1, f2, _⟩ := i2a_assignOne_frames _ _ _ _ _ _ hr
       have f3 := iP_assignOne_published _ _ _ _ _ _ hr
       refine hP.congr f3 f1 (fun d h => by simpa [f2] using h) ?_ ?_
-      · intro t ht; simpa [(i2b_applyCmds_frame j cl (actCmds a p) s.env).1] using ht
+      · intro t ht; simpa [(i2b_applyCmds_frame j cl (actCmds j a p) s.env).1] using ht
       · intro w ds he
         left
-        simpa [Sys.allEv, (i2b_applyCmds_frame j cl (actCmds a p) s.env).2.2.1] using he
+        simpa [Sys.allEv, (i2b_applyCmds_frame j cl (actCmds j a p) s.env).2.2.1] using he
   | endAssign =>
     simp only [step] at hs; split at hs; · cases hs
     cases hs; exact hP.congr rfl rfl (fun _ h => h) (fun _ h => h) (fun _ _ h => Or.inl h)
@@ -316,6 +316,7 @@ theorem iP_step (f : Sem) (j : Job) (cl : Cluster) (s s' : Sys) (st : Step) (wf 
   | env es =>
     simp only [step] at hs
     split at hs; · cases hs
+    rw [envStepP_eq f j s.env es h1.no_trim] at hs
     cases he : envStep f j s.env es with
     | none => simp [he] at hs
     | some e' =>
